@@ -1943,6 +1943,39 @@ unit(name="SrcGc", props="property C20", file="src/seq_analysis/gc.rs", dialect=
                      theorem="RbV.Thm.GenSrcGc.gcnContent_eq_model")])
 
 
+ALPHA_STRUCTS = {"Alphabet": [("symbols", "BitSet")], "RankTransform": [("ranks", "VecMap<u8>")]}
+
+unit(name="SrcAlphabet", props="property C20", file="src/alphabets/mod.rs", dialect="cf", structs=ALPHA_STRUCTS,
+     # `bit_set::BitSet`, `vec_map::VecMap<u8>`: `Rs.BitSet`, `Rs.VecMap` of RsSem.lean (trusted meaning of the two crates)
+     functions=[dict(name="Alphabet::new", lean="alphabetNew",
+                     header="pub fn new<C, T>(symbols: T) -> Self where C: Borrow<u8>, T: IntoIterator<Item = C>,",
+                     params=[("symbols", "&[u8]")], ret="Alphabet", locals={"s": "BitSet"},
+                     theorem="RbV.Thm.GenSrcAlphabet.alphabetNew_eq_model"),
+                dict(name="Alphabet::insert", lean="alphabetInsert", header="pub fn insert(&mut self, a: u8)",
+                     self_fields=[("symbols", "BitSet")], params=[("a", "u8")], ret=None,
+                     theorem="RbV.Thm.GenSrcAlphabet.alphabetInsert_eq_model"),
+                dict(name="Alphabet::is_word", lean="isWord",
+                     header="pub fn is_word<C, T>(&self, text: T) -> bool where C: Borrow<u8>, T: IntoIterator<Item = C>,",
+                     self_fields=[("symbols", "BitSet")], params=[("text", "&[u8]")], ret="bool",
+                     theorem="RbV.Thm.GenSrcAlphabet.isWord_eq_model"),
+                dict(name="Alphabet::max_symbol", lean="maxSymbol", header="pub fn max_symbol(&self) -> Option<u8>",
+                     self_fields=[("symbols", "BitSet")], params=[], ret="Option<u8>",
+                     theorem="RbV.Thm.GenSrcAlphabet.maxSymbol_eq_model"),
+                dict(name="Alphabet::len", lean="len", header="pub fn len(&self) -> usize",
+                     self_fields=[("symbols", "BitSet")], params=[], ret="usize",
+                     theorem="RbV.Thm.GenSrcAlphabet.len_eq_model"),
+                dict(name="RankTransform::new", lean="rankNew", header="pub fn new(alphabet: &Alphabet) -> Self",
+                     params=[("alphabet", "&Alphabet")], ret="RankTransform", locals={"ranks": "VecMap<u8>"},
+                     theorem="RbV.Thm.GenSrcAlphabet.rankNew_eq_model"),
+                dict(name="RankTransform::get", lean="rankGet", header="pub fn get(&self, a: u8) -> u8",
+                     self_fields=[("ranks", "VecMap<u8>")], params=[("a", "u8")], ret="u8",
+                     theorem="RbV.Thm.GenSrcAlphabet.rankGet_eq_model"),
+                dict(name="RankTransform::transform", lean="transform",
+                     header="pub fn transform<C, T>(&self, text: T) -> Vec<u8> where C: Borrow<u8>, T: IntoIterator<Item = C>,",
+                     self_fields=[("ranks", "VecMap<u8>")], params=[("text", "&[u8]")], ret="Vec<u8>",
+                     theorem="RbV.Thm.GenSrcAlphabet.transform_eq_model")])
+
+
 # ================================================================================================== self-test
 
 SELFTEST_RS = r"""
